@@ -170,7 +170,9 @@ func c06Identity(e *Env) {
 	}
 	base := ident{"aaaaaaaaaaaaaaaa", 1000, 64}
 	others := []ident{{"bbbbbbbbbbbbbbbb", 1000, 64}, {"aaaaaaaaaaaaaaaa", 1001, 64}, {"aaaaaaaaaaaaaaaa", 999, 64}, {"aaaaaaaaaaaaaaaa", 1000, 32},
-		{"aaaaaaaaaaaaaaaa", 1000, 128}, {"", 1000, 64}, {"aaaaaaaaaaaaaaaa", 1024, 64}, {"aaaaaaaaaaaaaaaa", 2000, 128}}
+		{"aaaaaaaaaaaaaaaa", 1000, 128}, {"", 1000, 64}, {"aaaaaaaaaaaaaaaa", 1024, 64}, {"aaaaaaaaaaaaaaaa", 2000, 128},
+		// other chunk size, same number of chunks (16): the old bitmap would be applied on the wrong grid
+		{"aaaaaaaaaaaaaaaa", 1000, 63}, {"aaaaaaaaaaaaaaaa", 1000, 65}, {"aaaaaaaaaaaaaaaa", 1000, 66}}
 	for _, where := range []string{"primary", "fallback"} {
 		for i, o := range others {
 			_, p, err := makeSidecar(dir, base.id, base.size, base.cs, []uint32{0, 1, 2, 5})
@@ -227,6 +229,9 @@ func c06Key(c c06Case, o c06Out) string {
 			return "lastchunk-repair-lost:partial:natural-timing"
 		}
 	}
+	if c.Sidecar == "foreign-samecount" {
+		return "sidecar-foreign-chunk-size-same-count:data-file-" + c.Data
+	}
 	if c.Sidecar == "kept" || c.Sidecar == "foreign" {
 		if c.Data == "deleted" || c.Data == "shortened" {
 			return "sidecar-" + c.Sidecar + ":data-file-" + c.Data
@@ -264,7 +269,7 @@ func runC06(e *Env) {
 	reps := e.Pick(1, 6)
 	for rep := 0; rep < reps; rep++ {
 		for _, first := range []string{"complete", "partial"} {
-			for _, sc := range []string{"kept", "bitflip", "truncated", "garbage", "foreign", "deleted"} {
+			for _, sc := range []string{"kept", "bitflip", "truncated", "garbage", "foreign", "foreign-samecount", "deleted"} {
 				for _, data := range []string{"kept", "deleted", "shortened"} {
 					add(c06Case{First: first, Sidecar: sc, Data: data})
 				}
@@ -478,10 +483,21 @@ func runC06Case(e *Env, lp *vk.ListenerPool, c c06Case) c06Out {
 		_ = os.WriteFile(scPath, scBytes[:len(scBytes)-1-int(c.TSeed%uint64(len(scBytes)-1))], 0644)
 	case "garbage":
 		_ = os.WriteFile(scPath, vk.NewRng(c.TSeed).Bytes(len(scBytes)), 0644)
-	case "foreign":
-		// a valid sidecar with all bits set but for another chunk size (left over from a different transfer)
+	case "foreign", "foreign-samecount":
+		// a valid sidecar with all bits set but for another chunk size (left over from a different transfer);
+		// "samecount": another chunk size that happens to give the same number of chunks
 		_ = os.Remove(scPath)
-		fsc, err := transfer.CreateSidecar(scPath, loaded.FileID, loaded.FileSize, loaded.ChunkSize*2)
+		fcs := loaded.ChunkSize * 2
+		if c.Sidecar == "foreign-samecount" {
+			for d := uint32(1); d < loaded.ChunkSize; d++ {
+				cand := loaded.ChunkSize - d
+				if cand > 0 && (loaded.FileSize+int64(cand)-1)/int64(cand) == int64(loaded.TotalChunks) {
+					fcs = cand
+					break
+				}
+			}
+		}
+		fsc, err := transfer.CreateSidecar(scPath, loaded.FileID, loaded.FileSize, fcs)
 		if err == nil {
 			for i := uint32(0); i < fsc.TotalChunks; i++ {
 				fsc.MarkComplete(i)
